@@ -11,7 +11,9 @@
 //!     <data>/<type> = '+'-joined pieces: x<hex> | R<count>:<hexbyte>
 //!   finale (implicit): poll until nothing moves; drop every sender; poll until the copy ends.
 //!   custom <type>    Event::custom(type, "d")  -> K | E
-//!   stress <threads> <events-per-thread>   (thorough) full server over loop-back, sender threads
+//!   conv <n1> <n2>   see conv()
+//!   stress <threads> <events-per-thread> [h]   full server over loop-back, sender threads (h: the client half-closes
+//!                         after its request and keeps reading)
 //! Observation per step:  <new wire bytes as x-hex or ->,<flags>,<state>
 //!   flags: one char per EventSender ever created: 1 connected, 0 disconnected, x dropped
 //!   state: A copy running, T CopyResult::Ok, R ReaderErr, W WriterErr
@@ -236,7 +238,32 @@ fn sse(toks: &[&str]) -> String {
 
 /// thorough: full server over loop-back, `nt` sender threads each sending `per` numbered events
 /// through clones of one EventSender; the client de-chunks and checks per-thread order and counts.
-fn stress(nt: usize, per: usize) -> String {
+/// conv <n1> <n2>: the event-stream body converted to bytes (Vec::<u8>::try_from(response.body), which the String
+/// conversion uses too) on another thread WHILE a sender is still connected: n1 events are queued before the conversion
+/// starts, the original sender disconnects, a clone sends n2 more 60 ms later and then drops.  The conversion must
+/// wait for the last sender and return every event in order.
+fn conv(n1: usize, n2: usize) -> String {
+    let (mut sender, response) = Response::event_stream();
+    for i in 0..n1 {
+        sender.send(Event::Message(format!("e{i}")));
+    }
+    let mut late = sender.clone();
+    sender.disconnect();
+    let th = std::thread::spawn(move || Vec::<u8>::try_from(response.body));
+    std::thread::sleep(std::time::Duration::from_millis(60));
+    for i in n1..n1 + n2 {
+        late.send(Event::Message(format!("e{i}")));
+    }
+    drop(late);
+    drop(sender);
+    match th.join() {
+        Ok(Ok(bytes)) => tok_of_bytes(&bytes),
+        Ok(Err(e)) => format!("err:{:?}", e.kind()),
+        Err(_) => "panic".to_string(),
+    }
+}
+
+fn stress(nt: usize, per: usize, half_close: bool) -> String {
     use std::io::{Read, Write};
     let executor = safina::executor::Executor::new(2, 4).unwrap();
     let holder: Arc<Mutex<Option<EventSender>>> = Arc::new(Mutex::new(None));
@@ -251,6 +278,12 @@ fn stress(nt: usize, per: usize) -> String {
     let (addr, _stopped) = executor.block_on(async move { servlin::HttpServerBuilder::new().max_conns(2).permit(sub).spawn(handler).await }).unwrap();
     let mut s = std::net::TcpStream::connect(addr).unwrap();
     s.write_all(b"GET /events HTTP/1.1\r\n\r\n").unwrap();
+    if half_close {
+        // the client has nothing more to say and closes its sending side; it is still there and keeps reading
+        // (HTTP/1.0-style clients, `nc -N`, some proxies): the stream goes on while a sender is connected
+        s.shutdown(std::net::Shutdown::Write).unwrap();
+        std::thread::sleep(std::time::Duration::from_millis(30));
+    }
     let t0 = std::time::Instant::now();
     let sender = loop {
         if let Some(x) = holder.lock().unwrap().take() {
@@ -348,7 +381,8 @@ fn main() {
             Ok(_) => "K".to_string(),
             Err(_) => "E".to_string(),
         },
-        "stress" => stress(toks[1].parse().unwrap(), toks[2].parse().unwrap()),
+        "conv" => conv(toks[1].parse().unwrap(), toks[2].parse().unwrap()),
+        "stress" => stress(toks[1].parse().unwrap(), toks[2].parse().unwrap(), toks.get(3) == Some(&"h")),
         _ => panic!("bad case"),
     });
 }
